@@ -34,6 +34,7 @@ type Prog struct {
 	funcs    []*ssa.Function         /* Source functions of the module, anons included. */
 	Flat     *ssa.FlattenStats       /* What helper inlining did. */
 	Helpers  []string                /* Helper functions folded into their callers. */
+	Canon    int                     /* Operations rewritten to their canonical spelling. */
 	Unrolled int                     /* Functions in which a loop over a literal table was unrolled. */
 	Devirt   int                     /* Interface calls resolved to the one implementing type. */
 }
@@ -337,6 +338,10 @@ func (p *Prog) flatten() {
 	}
 	for _, f := range tops {
 		p.Devirt += ssa.Devirtualize(f, resolve)
+	}
+	/* One spelling per operation (len(s) == 0 is s == "", ...). */
+	for _, f := range tops {
+		p.Canon += ssa.Canonicalize(f)
 	}
 	/* Calls which never return end their block, so that "if err != nil {
 	log.Fatalf(...) }" does not fall through in the flow graph. */
